@@ -162,6 +162,40 @@ func checkC03(ctx *Ctx, c *Case) error {
 		if got := canonI(p); got != want {
 			return fmt.Errorf("Merge-option decode into decode(a) differs from reference decode(a||b): %s", diffStr(got, want))
 		}
+		// the same with a destination whose struct holds nil where an empty message
+		// stands (list element, map value, oneof wrapper): merging into it must
+		// give what merging into the equal message without nils gives
+		if digest(c.Bytes, "nildst")%2 == 0 {
+			da3, _ := decodeD(t, a)
+			q := model.BuildP(t, da3.ProtoReflect())
+			sites := model.NilSites(q)
+			if len(sites) > 0 {
+				for i := range sites {
+					if digest(c.Bytes, fmt.Sprint("site", i))%2 == 0 {
+						sites[i].Apply()
+					}
+				}
+				vb, err := implDet(q)
+				if err != nil {
+					ctx.Label("reference codec unavailable for nil-injected struct")
+					return nil
+				}
+				dv, err := decodeD(t, vb)
+				if err != nil {
+					return nil
+				}
+				if err := (proto.UnmarshalOptions{Merge: true, AllowPartial: true}).Unmarshal(bb, dv); err != nil {
+					return nil
+				}
+				if err := (proto.UnmarshalOptions{Merge: true}).Unmarshal(bb, q); err != nil {
+					return fmt.Errorf("Unmarshal with Merge into a message holding nil elements rejected a well-typed stream: %v", err)
+				}
+				if got, w2 := canonI(q), canonD(dv.ProtoReflect()); got != w2 {
+					return fmt.Errorf("Merge-option decode into a message whose struct holds nil for empty messages differs from the reference: %s", diffStr(got, w2))
+				}
+				ctx.Label("mergeopt into nil-injected destination")
+			}
+		}
 	default:
 		return fmt.Errorf("HARNESS: unknown sub %q", c.Sub)
 	}
